@@ -49,6 +49,30 @@ def run(eng, rep, tier):
                       "%s passes the tree of an existing state to the new state without copying" % fname, s,
                       site=site_of(prog, f, f.node))
 
+    # the state whose tree is handed out spans the whole word: among the conditions that select it there is the test
+    # `positions[0] == 0` (the dotted rule started at the first letter) - without it a completed start-symbol state that
+    # began in the middle of the sentence is accepted and the leaves of its tree spell only a suffix of w
+    fg = prog.private("pyformlang.fcfg.fcfg.FCFG._get_final_state")
+    if fg is None:
+        rep.error("R1", "C15.1", "fcfg.FCFG", "anchor", "FCFG._get_final_state vanished")
+    else:
+        sg = interp.run_entry(fg, FCFG)
+
+        def _is_zero(e):
+            return isinstance(e, ast.Constant) and e.value == 0 and not isinstance(e.value, bool)
+
+        def _is_origin(e):
+            return isinstance(e, ast.Subscript) and _is_zero(e.slice) and isinstance(e.value, ast.Attribute) and \
+                e.value.attr == "positions"
+        origin = [ev for ev in own(sg) if ev.kind == "compare" and isinstance(ev.node, ast.Compare) and len(ev.node.ops) == 1
+                  and isinstance(ev.node.ops[0], ast.Eq) and
+                  ((_is_origin(ev.node.left) and _is_zero(ev.node.comparators[0])) or
+                   (_is_zero(ev.node.left) and _is_origin(ev.node.comparators[0])))]
+        ob.decide("R1", "C15.1", fg, "accepted-state-starts-at-0", bool(origin),
+                  "the state whose tree is returned is required to start at position 0",
+                  "the accepting Earley state is not required to start at position 0: a start-symbol constituent that "
+                  "begins mid-sentence is accepted and its tree does not spell the word", sg, site=site_of(prog, fg, fg.node))
+
     # -------------------------------------------------------------- C15.2 recursive descent
     RD = "pyformlang.cfg.recursive_decent_parser.RecursiveDecentParser"
     f = prog.functions.get(RD + "._get_parse_tree_sub")
